@@ -808,6 +808,8 @@ func readBody(dec *imapwire.Decoder, options *Options) (imap.BodyStructure, erro
 	if dec.String(&mediaType) {
 		token = "body-type-1part"
 		bs, err = readBodyType1part(dec, mediaType, options)
+	} else if dec.Err() != nil {
+		return nil, dec.Err() // malformed literal
 	} else {
 		token = "body-type-mpart"
 		bs, err = readBodyTypeMpart(dec, options)
@@ -959,6 +961,8 @@ func readBodyTypeMpart(dec *imapwire.Decoder, options *Options) (*imap.BodyStruc
 
 		if dec.SP() && dec.String(&bs.Subtype) {
 			break
+		} else if dec.Err() != nil {
+			return nil, dec.Err() // malformed literal
 		}
 	}
 
